@@ -727,7 +727,7 @@ struct StrDriver {
             return;
         }
         if (kind == K_MISUSE) {
-            begin_op("misuse", a, static_cast<int>(st.k[2] % 8));
+            begin_op("misuse", a, static_cast<int>(st.k[2] % 12));
             step_misuse(st, a);
             return;
         }
@@ -1235,9 +1235,26 @@ struct StrDriver {
         }
         S& v            = *obj[a];
         size_t const sz = model[a].size();
-        int const var   = static_cast<int>(st.k[2] % 8);
+        int const var   = static_cast<int>(st.k[2] % 12);
         Char sink       = Char(0);
         S const& cv     = v;
+        if (var >= 8) {
+            // replace with a start position beyond size(): std::basic_string throws out_of_range, here a precondition
+            size_t const pos = static_cast<size_t>(beyond(sz + 1, st.flt));
+            ExactBuf<Char> txt(2);
+            txt.p[0] = Char('x');
+            txt.p[1] = Char(0);
+            ctx.log.kv("pos", static_cast<long long>(pos));
+            call(a, true, false, [&] {
+                switch (var) {
+                case 8: v.replace(pos, 1, cv); break;
+                case 9: v.replace(pos, 1, cv, 0, 1); break;
+                case 10: v.replace(pos, 1, txt.p, 1); break;
+                default: v.replace(pos, 1, txt.p); break;
+                }
+            });
+            return;
+        }
         switch (var) {
         case 0: // operator[] beyond the terminator
         case 1: {
